@@ -535,8 +535,12 @@ func ruleJoin(r *Report) {
 		for _, f := range p.Callees(g.Instr.(*ssa.Go)) {
 			r.Saw(f)
 			fk := FuncKey(f)
-			// deferred send on a done channel
-			done := ""
+			// the done signal: a send on a channel field, made on the regular way out of the goroutine only. A deferred send
+			// also runs while a panic unwinds (log.Panicf after a failed flush / compaction): Close, which waits for exactly
+			// that signal, is released, returns nil, and the caller races the dying process — a failed last flush is
+			// reported as a successful Close (exit code 0 in half of the runs on a multi-core machine)
+			done, deferredDone := "", ""
+			var sendSites []Site
 			for _, a := range f.AnonFuncs {
 				if !deferredOnly(a) {
 					continue
@@ -544,17 +548,66 @@ func ruleJoin(r *Report) {
 				eachInstr(a, func(s Site) {
 					if sd, ok := s.Instr.(*ssa.Send); ok {
 						if _, fld, _, ok := loadOfField(sd.Chan); ok {
-							done = fld
+							deferredDone = fld
 						}
 					}
 				})
 			}
+			eachInstr(f, func(s Site) {
+				if sd, ok := s.Instr.(*ssa.Send); ok {
+					if _, fld, _, ok := loadOfField(sd.Chan); ok {
+						done = fld
+						sendSites = append(sendSites, s)
+					}
+				}
+			})
 			key := rule + "/" + fk + "/signals-done"
-			if done == "" {
-				r.Bad(rule, key, f.Pos(), "the goroutine does not signal its exit on a done channel (deferred send)")
+			if deferredDone != "" {
+				r.Bad(rule, key, f.Pos(), "the goroutine signals its exit on "+deferredDone+" from a deferred call, which also runs while it panics: after a failed flush or compaction Close is released by the dying goroutine and reports success for an output that is missing")
+				done = deferredDone
+				doneFields = append(doneFields, done)
 				continue
 			}
-			r.OK(rule, key, f.Pos(), "deferred send on "+done)
+			if done == "" {
+				r.Bad(rule, key, f.Pos(), "the goroutine does not signal its exit on a done channel")
+				continue
+			}
+			// every regular exit passes the send (calls that do not return — log.Panicf, log.Fatalf, panic — end their path)
+			removed := map[Edge]bool{}
+			for _, sd := range sendSites {
+				for _, su := range sd.Block.Succs {
+					removed[Edge{sd.Block, su}] = true
+				}
+			}
+			eachInstr(f, func(s Site) {
+				if c, ok := s.Instr.(*ssa.Call); ok {
+					switch CalleeKey(c) {
+					case "log.Panicf", "log.Panic", "log.Panicln", "log.Fatalf", "log.Fatal", "log.Fatalln", "os.Exit":
+						for _, su := range s.Block.Succs {
+							removed[Edge{s.Block, su}] = true
+						}
+					}
+				}
+			})
+			silent := ""
+			reach := reachFrom(f.Blocks[0], removed)
+			for _, rs := range returnsOf(f) {
+				inSend := false
+				for _, sd := range sendSites {
+					if sd.Block == rs.Block {
+						inSend = true
+					}
+				}
+				if reach[rs.Block] && !inSend {
+					silent = p.Pos(rs.Pos())
+				}
+			}
+			if silent != "" {
+				r.Bad(rule, key, f.Pos(), "the goroutine can end ("+silent+") without signalling on "+done+": Close waits for ever")
+				doneFields = append(doneFields, done)
+				continue
+			}
+			r.OK(rule, key, f.Pos(), "send on "+done+" on every regular exit, none deferred")
 			doneFields = append(doneFields, done)
 			key = rule + "/" + fk + "/joined-by-Close"
 			if len(recvs[done]) > 0 {
@@ -1618,4 +1671,255 @@ func onlyFromOpen(p *Prog, fn *ssa.Function, depth int) bool {
 		}
 	}
 	return true
+}
+
+// R-open-failure-releases (C19): an Open method that acquires handles into the fields of its receiver and then fails must
+// not leave them to nobody. Either Open releases what it acquired so far on every failing way out (directly, through a
+// helper of the receiver, or in a deferred call that looks at the error), or every caller of that Open closes the
+// receiver when Open fails. (acquire-failure-closes takes "stored into the receiver" for a hand-over to the caller — this
+// rule is where that hand-over is checked.)
+func ruleOpenFailureReleases(r *Report) {
+	const rule = "open-failure-releases"
+	r.Rule(rule, 1, "every Open method that stores freshly acquired closables into its receiver either releases them itself on each error return that follows, or all of its call sites in the module close the receiver on Open's failure edge")
+	p := r.P
+	n := 0
+	for _, fn := range p.ModuleFuncs() {
+		if fn.Name() != "Open" || fn.Signature.Recv() == nil || fn.Parent() != nil || fn.Synthetic != "" || len(fn.Params) == 0 || errorResultIndex(fn) < 0 {
+			continue
+		}
+		if !hasClose(fn.Signature.Recv().Type()) {
+			continue
+		}
+		recv := fn.Params[0]
+		// acquisitions stored into receiver fields
+		type acq struct {
+			store Site
+			field string
+		}
+		var acqs []acq
+		eachInstr(fn, func(s Site) {
+			st, ok := s.Instr.(*ssa.Store)
+			if !ok {
+				return
+			}
+			fa, isFA := st.Addr.(*ssa.FieldAddr)
+			if !isFA || paramOrigin(fa.X) != recv || !hasClose(st.Val.Type()) || isErrorType(st.Val.Type()) {
+				return
+			}
+			// the stored value comes from a creating call in this function
+			created := valueDependsOn(st.Val, func(x ssa.Value) bool {
+				c, isC := x.(*ssa.Call)
+				if !isC {
+					return false
+				}
+				if ck := CalleeKey(c); ck != "" {
+					return creates(p, c)
+				}
+				return false
+			})
+			if !created {
+				return
+			}
+			_, f, _, _ := fieldAddrName(fa)
+			acqs = append(acqs, acq{s, f})
+		})
+		if len(acqs) == 0 {
+			continue
+		}
+		n++
+		r.Saw(fn)
+		key := rule + "/" + FuncKey(fn)
+		// (a) self-cleaning: release blocks = calls of Close on a receiver field, or of a receiver method that does so; a
+		// deferred literal that does one of these covers every return behind its registration
+		closesFields := func(g *ssa.Function, rcv ssa.Value) bool {
+			res := false
+			for _, h := range append([]*ssa.Function{g}, moduleReach(p, []*ssa.Function{g})...) {
+				if pk := fnPkg(h); pk == nil || fnPkg(fn) == nil || pk != fnPkg(fn) {
+					continue
+				}
+				eachInstr(h, func(s Site) {
+					c, ok := s.Instr.(ssa.CallInstruction)
+					if !ok {
+						return
+					}
+					cc := c.Common()
+					var rv ssa.Value
+					nm := ""
+					if cc.IsInvoke() {
+						rv, nm = cc.Value, cc.Method.Name()
+					} else if sc := cc.StaticCallee(); sc != nil && sc.Signature.Recv() != nil && len(cc.Args) > 0 {
+						rv, nm = cc.Args[0], sc.Name()
+					}
+					if nm != "Close" || rv == nil {
+						return
+					}
+					if _, _, base, isF := loadOfField(rv); isF && base != nil {
+						res = true
+					}
+				})
+			}
+			return res
+		}
+		release := map[*ssa.BasicBlock]bool{}
+		coveredFrom := map[*ssa.BasicBlock]bool{} // blocks where a cleaning defer was registered
+		eachInstr(fn, func(s Site) {
+			switch x := s.Instr.(type) {
+			case *ssa.Defer:
+				if mc, isMC := x.Call.Value.(*ssa.MakeClosure); isMC {
+					if lit, isF := mc.Fn.(*ssa.Function); isF && closesFields(lit, nil) {
+						coveredFrom[s.Block] = true
+					}
+				}
+			case *ssa.Call:
+				cc := x.Common()
+				if cc.IsInvoke() && cc.Method.Name() == "Close" {
+					if _, _, base, isF := loadOfField(cc.Value); isF && paramOrigin(base) == recv {
+						release[s.Block] = true
+					}
+				} else if sc := cc.StaticCallee(); sc != nil && sc.Signature.Recv() != nil && len(cc.Args) > 0 && paramOrigin(cc.Args[0]) == recv && sc != fn && closesFields(sc, nil) {
+					release[s.Block] = true
+				}
+			}
+		})
+		selfCleaning := true
+		idx := errorResultIndex(fn)
+		for _, a := range acqs {
+			// a cleaning defer registered in a block that dominates the acquisition covers everything behind it
+			cov := false
+			for b := range coveredFrom {
+				if dominates(b, a.store.Block) {
+					cov = true
+				}
+			}
+			if cov {
+				continue
+			}
+			removed := map[Edge]bool{}
+			for b := range release {
+				for _, su := range b.Succs {
+					removed[Edge{b, su}] = true
+				}
+			}
+			for _, su := range a.store.Block.Succs {
+				reach := reachFrom(su, removed)
+				for _, rs := range returnsOf(fn) {
+					if k, _ := returnErrOperand(rs.Instr.(*ssa.Return), idx); k == "nil" {
+						continue
+					}
+					if reach[rs.Block] && !release[rs.Block] {
+						selfCleaning = false
+					}
+				}
+			}
+		}
+		if selfCleaning {
+			r.OK(rule, key, fn.Pos(), fmt.Sprintf("%d acquisition(s) into the receiver, released by Open itself when it fails", len(acqs)))
+			continue
+		}
+		// (b) every caller closes the receiver on the failure edge
+		var bad []string
+		sites := 0
+		for _, g := range p.ModuleFuncs() {
+			eachInstr(g, func(s Site) {
+				c, ok := s.Instr.(*ssa.Call)
+				if !ok {
+					return
+				}
+				isThis := false
+				for _, t := range p.Callees(c) {
+					if t == fn || genericBody(t) == fn {
+						isThis = true
+					}
+				}
+				if !isThis {
+					return
+				}
+				sites++
+				var rv ssa.Value
+				if c.Call.IsInvoke() {
+					rv = c.Call.Value
+				} else if len(c.Call.Args) > 0 {
+					rv = c.Call.Args[0]
+				}
+				_, fail := errorEdges(s)
+				if len(fail) == 0 {
+					bad = append(bad, FuncKey(g)+" ("+p.Pos(s.Pos())+", error not tested)")
+					return
+				}
+				// Close on the same receiver value, or the receiver is a field/param the caller's caller owns
+				closeBlocks := map[*ssa.BasicBlock]bool{}
+				deferredClose := false
+				for _, h := range closuresOf(g) {
+					eachInstr(h, func(t Site) {
+						ci, isC := t.Instr.(ssa.CallInstruction)
+						if !isC {
+							return
+						}
+						cc := ci.Common()
+						var r2 ssa.Value
+						nm := ""
+						if cc.IsInvoke() {
+							r2, nm = cc.Value, cc.Method.Name()
+						} else if sc := cc.StaticCallee(); sc != nil && sc.Signature.Recv() != nil && len(cc.Args) > 0 {
+							r2, nm = cc.Args[0], sc.Name()
+						}
+						if nm != "Close" || r2 == nil {
+							return
+						}
+						same := stripIface(r2) == stripIface(rv) || valueDependsOn(r2, func(x ssa.Value) bool { return x == rv || x == stripIface(rv) }) || valueDependsOn(rv, func(x ssa.Value) bool { return x == stripIface(r2) })
+						if !same {
+							return
+						}
+						if h != g {
+							if ds, isD := deferSiteOf(h); isD && ds.Fn == g && precedes(ds, s) {
+								deferredClose = true
+							}
+							return
+						}
+						if _, isDefer := t.Instr.(*ssa.Defer); isDefer && precedes(t, s) {
+							deferredClose = true
+							return
+						}
+						closeBlocks[t.Block] = true
+					})
+				}
+				if deferredClose {
+					return
+				}
+				// the receiver is owned by somebody else (a field of the caller's receiver or a parameter): their Close
+				if po := paramOrigin(rv); po != nil {
+					return
+				}
+				if _, _, base, isF := loadOfField(rv); isF && paramOrigin(base) != nil {
+					return
+				}
+				removed := map[Edge]bool{}
+				for b := range closeBlocks {
+					for _, su := range b.Succs {
+						removed[Edge{b, su}] = true
+					}
+				}
+				for _, e := range fail {
+					reach := reachFrom(e.To, removed)
+					for _, rs := range returnsOf(g) {
+						if reach[rs.Block] && !closeBlocks[rs.Block] {
+							bad = append(bad, FuncKey(g)+" ("+p.Pos(s.Pos())+")")
+							return
+						}
+					}
+				}
+			})
+		}
+		bad = uniqStrings(bad)
+		if len(bad) == 0 && sites > 0 {
+			r.OK(rule, key, fn.Pos(), fmt.Sprintf("%d acquisition(s) into the receiver; all %d call site(s) close the receiver when Open fails", len(acqs), sites))
+		} else if sites == 0 {
+			r.OK(rule, key, fn.Pos(), "no call site in the module (library entry point: the caller's Close is documented)")
+		} else {
+			r.Bad(rule, key, fn.Pos(), fmt.Sprintf("Open stores %d freshly opened handle(s) into its receiver, does not release them when a later step fails, and these callers do not close the receiver on Open's failure either: %s — the files stay open with nobody left to close them (and Close after such an Open may find half of the fields nil)", len(acqs), strings.Join(bad, ", ")))
+		}
+	}
+	if n == 0 {
+		r.Missing(rule, rule+"/none", "no Open method acquires handles into its receiver")
+	}
 }
